@@ -121,3 +121,100 @@ def check_pair(make, judge, k=None):
             v.case_k = kk
             raise
     return n
+
+
+# ---------------------------------------------------------------------------------------------------------
+# two preemptions, at call granularity: fa is cut at its k-th library CALL, fb runs until ITS j-th library call and is
+# held there, fa runs to completion, then fb finishes.  (One preemption is explored at every line, see above; the second
+# bound is explored at function-entry granularity: n_a x n_b schedules instead of lines_a x lines_b.)
+# ---------------------------------------------------------------------------------------------------------
+
+def _traced_calls(fn, on_call):
+    lib = _lib_dir()
+
+    def glob(frame, event, arg):
+        if event == 'call' and frame.f_code.co_filename.startswith(lib):
+            on_call()
+        return None
+    box = _Box()
+    old = sys.gettrace()
+    sys.settrace(glob)
+    try:
+        box.run(fn)
+    finally:
+        sys.settrace(old)
+    return box
+
+
+def count_calls(fn):
+    n = [0]
+
+    def on_call():
+        n[0] += 1
+    box = _traced_calls(fn, on_call)
+    return n[0], box
+
+
+def run_schedule2(fa, fb, k, j, grace=5.0):
+    """fa until its k-th library call; fb until its j-th library call (held there); fa to its end; fb to its end."""
+    na = [0]
+    state = {'thread': None, 'box_b': _Box()}
+    held = threading.Event()        # fb has reached its j-th call (or has finished)
+    release = threading.Event()     # fa has finished: fb may go on
+
+    def b_body():
+        nb = [0]
+
+        def on_call_b():
+            if nb[0] == j:
+                held.set()
+                release.wait(30.0)
+            nb[0] += 1
+        try:
+            state['box_b'] = _traced_calls(fb, on_call_b)
+        finally:
+            held.set()
+
+    def on_call_a():
+        if na[0] == k and state['thread'] is None:
+            t = threading.Thread(target=b_body, daemon=True)
+            state['thread'] = t
+            t.start()
+            held.wait(grace)
+        na[0] += 1
+    box_a = _traced_calls(fa, on_call_a)
+    release.set()
+    t = state['thread']
+    if t is None:
+        state['box_b'].run(fb)
+    else:
+        t.join(30.0)
+        if t.is_alive():
+            state['box_b'].error = TimeoutError('the second caller never finished')
+    return box_a, state['box_b']
+
+
+def check_pair2(make, judge, kj=None):
+    """Every schedule (k, j) of run_schedule2 for one pair (or the single one given); judge(k, j, box_a, box_b) raises on
+    a wrong answer.  Returns the number of schedules; a violation carries case_kj."""
+    if kj is not None:
+        fa, fb = make()
+        box_a, box_b = run_schedule2(fa, fb, kj[0], kj[1])
+        judge(kj[0], kj[1], box_a, box_b)
+        return 1
+    fa, fb = make()
+    n_a, _ = count_calls(fa)
+    fa, fb = make()
+    n_b, _ = count_calls(fb)
+    n = 0
+    for k in range(n_a):
+        for j in range(n_b):
+            fa, fb = make()
+            box_a, box_b = run_schedule2(fa, fb, k, j)
+            n += 1
+            try:
+                judge(k, j, box_a, box_b)
+            except Exception as v:      # noqa - annotated and passed on
+                v.case_kj = [k, j]
+                raise
+    return n
